@@ -27,7 +27,11 @@ def generate(tier, seed):
                 for o in OBJS:
                     qs.append(Q_e([s, dm, o, "read"]))
                 e = enc(dm)
-                qs += ["?rf:%s:%s" % (s, e), "?uf:%s:%s" % (s, e), "?ir:%s:%s" % (s, e), "?ip:%s:%s" % (s, e), "?pf:%s:%s" % (s, e)]
+                qs += ["?rf:%s:%s" % (s, e), "?uf:%s:%s" % (s, e), "?ir:%s:%s" % (s, e)]
+                if dm != "":
+                    # permission LISTINGS filter the stored rules by [user, domain], and an empty filter value is the documented
+                    # wildcard: for the domain named "" they list every domain by design, so they are not part of its view
+                    qs += ["?ip:%s:%s" % (s, e), "?pf:%s:%s" % (s, e)]
             return qs
 
         def confined_ops(dm):
